@@ -20,7 +20,7 @@ use crate::rng::{derive, hash_str, Rng};
 
 type R = Result<(), Fail>;
 
-pub const OPS: [&str; 11] = [
+pub const OPS: [&str; 12] = [
     "clear",
     "delete_entity",
     "delete_entities",
@@ -32,6 +32,7 @@ pub const OPS: [&str; 11] = [
     "insert_refused_or_placeholder",
     "lazy_remove_maintain",
     "changeset",
+    "insert_with_panicking_default",
 ];
 
 struct PAmt(Val);
@@ -94,7 +95,7 @@ impl P {
             }
             let c = self.drivers[k].count(self.w());
             if c != self.comps[k].len() {
-                return Err(("C19", format!("{}: count() = {} but the join yields {} items", self.drivers[k].name(), c, self.comps[k].len())));
+                return Err((self.tag, format!("{}: count() = {} but the join yields {} items", self.drivers[k].name(), c, self.comps[k].len())));
             }
         }
         self.faults("after the caught panic")
@@ -112,7 +113,7 @@ impl P {
             let got = self.drivers[k].dump(self.w());
             let want: Vec<(u32, Snap)> = self.comps[k].iter().map(|(i, s)| (*i, *s)).collect();
             if got != want {
-                return Err(("C19", format!("{}: storage {} no longer agrees with what it exposed before ({} vs {} members)", when, self.drivers[k].name(), got.len(), want.len())));
+                return Err((self.tag, format!("{}: storage {} no longer agrees with what it exposed before ({} vs {} members)", when, self.drivers[k].name(), got.len(), want.len())));
             }
             if let Err(m) = self.drivers[k].observe_slices(self.w()) {
                 return Err(("C19", format!("{}: {}", self.drivers[k].name(), m)));
@@ -151,7 +152,7 @@ impl P {
                     self.log(format!("after: access({}, {:?}, {:?}) -> {:?}", self.drivers[k].name(), h, path, out));
                     let d = &self.drivers[k];
                     let v = judge(d.name(), d.is_zst(), d.tracked(), alive, self.comps[k].is_empty(), m, h, path, p, out)
-                        .map_err(|(_, m)| ("C19", format!("world not usable after the caught panic: {}", m)))?;
+                        .map_err(|(_, m)| (self.tag, format!("world not usable after the caught panic: {}", m)))?;
                     match v.upd {
                         Upd::Keep => {}
                         Upd::Set(s) => {
@@ -234,12 +235,11 @@ fn run_case(rep: &mut Report, case: u64) {
         hist: Vec::new(),
         rng: rng.clone(),
         payload: 0x900,
-        tag: if cfg.prop == "C08" {
-            "C08"
-        } else if cfg.prop == "C16" {
-            "C16"
-        } else {
-            "C19"
+        tag: match cfg.prop.as_str() {
+            "C08" => "C08",
+            "C16" => "C16",
+            "C04" => "C04",
+            _ => "C19",
         },
     };
     for k in 0..st.drivers.len() {
@@ -398,6 +398,31 @@ fn run_case(rep: &mut Report, case: u64) {
                     for h in &vacant {
                         pl += 1;
                         let _ = d.access(w, *h, Path::Insert, pl);
+                    }
+                }));
+                st.payload = pl + 8;
+                r
+            }
+            "insert_with_panicking_default" => {
+                // an insertion that has to construct default fillers (default-filled vector: a gap
+                // beyond the vector's length) while `Default::default()` panics: nothing is inserted
+                let mut vacant: Vec<Entity> = st.live.values().cloned().filter(|e| !st.comps[0].contains_key(&e.id())).collect();
+                vacant.reverse(); // highest index first, so that gaps have to be filled
+                let extra = st.world.as_mut().unwrap().create_iter().take(3).collect::<Vec<_>>();
+                for e in &extra {
+                    st.live.insert(e.id(), *e);
+                }
+                vacant.insert(0, extra[2]);
+                ledger::arm_default_panic(k);
+                st.hist.push(format!("arm: Default::default() call #{} panics; inserts into {} vacant entities (highest index first) and get_mut_or_default", k, vacant.len()));
+                let w = st.world.as_ref().unwrap();
+                let d = &st.drivers[0];
+                let mut pl = st.payload;
+                let r = catch_unwind(AssertUnwindSafe(|| {
+                    for (i, h) in vacant.iter().enumerate() {
+                        pl += 1;
+                        let path = if i % 3 == 2 { Path::GetMutOrDefault } else { Path::Insert };
+                        let _ = d.access(w, *h, path, pl);
                     }
                 }));
                 st.payload = pl + 8;
